@@ -33,7 +33,7 @@ ASSUMPTIONS = [
     "inputs are the vendored corpus fonts (no generated fonts: not this technique)",
     "tables that carry free text are compared after XML white-space normalisation of their dumps when their bytes differ, as the property allows",
 ]
-EXPECTED_PROBES = ["expat.split_text_node", "reader.short", "reader.text", "reader.path", "bufsize.1", "dump.splitTables", "dump.splitGlyphs", "newline.crlf", "lossless.tables_checked"]
+EXPECTED_PROBES = ["input.generated", "expat.split_text_node", "reader.short", "reader.text", "reader.path", "bufsize.1", "dump.splitTables", "dump.splitGlyphs", "newline.crlf", "lossless.tables_checked"]
 
 TIERS = {
     "quick": {"budget_s": 170, "determinism_sample": 10, "n": {"sweep": 1500}, "minimise_s": 40, "max_minimise": 3},
@@ -41,8 +41,102 @@ TIERS = {
 }
 
 
+N_GENERATED = 48
+
+
 def _fonts():
-    return corpus.binaries()
+    # corpus binaries plus small generated TrueType fonts that carry what the corpus lacks: glyph names
+    # that collide once mapped to file names or that need XML escaping, and TrueType programs whose push
+    # operands sit on the boundaries of their encodings
+    return corpus.binaries() + ["gen:%d" % i for i in range(N_GENERATED)]
+
+
+NASTY_GLYPH_NAMES = ["A/B", "A_B", "a:b", "a*b", "a_b", "x&y", "x<y", "x>y", 'q"r', "p'q", "a", "A", "Aa", "aA", "AA", "aa", "con", "CON", "Con", "aux", "nul.alt", "com1", "a.alt", "A.alt", "f_f_i", "F_F_I", "uni0041", "u1F600", "semi;colon", "per%cent", "hash#", "at@", "back\\slash", "pipe|", "br[ack]et", "plus+", "q?mark", "x" * 60, "X" * 60, "x" * 59 + "Y", "dot.", ".dot", "_", "__", "a__", "A__"]
+
+
+def gen_program(r):
+    """TrueType bytecode with push instructions whose operands sit on encoding boundaries."""
+    words = [0x8000, 0x7FFF, 0xFFFF, 0x0000, 0x0001, 0x00FF, 0x0100, 0x8001, 0xFF00]
+    out = bytearray()
+    for _ in range(r.randint(1, 6)):
+        k = r.random()
+        if k < 0.3:
+            n = r.randint(1, 8)
+            out.append(0xB8 + n - 1)  # PUSHW[n]
+            for _ in range(n):
+                w = r.choice(words) if r.random() < 0.7 else r.randrange(1 << 16)
+                out += w.to_bytes(2, "big")
+            out += bytes([0x21] * n)  # POP
+        elif k < 0.5:
+            n = r.choice([1, 2, 9, 20])
+            out += bytes([0x41, n])  # NPUSHW
+            for _ in range(n):
+                w = r.choice(words) if r.random() < 0.7 else r.randrange(1 << 16)
+                out += w.to_bytes(2, "big")
+            out += bytes([0x21] * n)
+        elif k < 0.75:
+            n = r.randint(1, 8)
+            out.append(0xB0 + n - 1)  # PUSHB[n]
+            out += bytes(r.choice([0, 1, 127, 128, 255]) for _ in range(n))
+            out += bytes([0x21] * n)
+        else:
+            n = r.choice([1, 9, 40])
+            out += bytes([0x40, n])  # NPUSHB
+            out += bytes(r.choice([0, 1, 127, 128, 255]) for _ in range(n))
+            out += bytes([0x21] * n)
+    return bytes(out)
+
+
+_GEN = {}
+
+
+def gen_font(i):
+    if i not in _GEN:
+        from fontTools.fontBuilder import FontBuilder
+        from fontTools.pens.ttGlyphPen import TTGlyphPen
+        from fontTools.ttLib import newTable
+        from fontTools.ttLib.tables.ttProgram import Program
+
+        r = prng.sub("c03-gen", i)
+        names = [".notdef"] + r.sample(NASTY_GLYPH_NAMES, r.randint(6, 16))
+        fb = FontBuilder(1000, isTTF=True)
+        fb.setupGlyphOrder(names)
+        fb.setupCharacterMap({0x41 + k: n for k, n in enumerate(names[1:])})
+        glyphs = {}
+        for k, n in enumerate(names):
+            pen = TTGlyphPen(None)
+            pen.moveTo((10 + k, 0))
+            pen.lineTo((10 + k, 500 + k))
+            pen.lineTo((300, 500 + k))
+            pen.closePath()
+            g = pen.glyph()
+            if r.random() < 0.6:
+                g.program = Program()
+                g.program.fromBytecode(gen_program(r))
+            glyphs[n] = g
+        fb.setupGlyf(glyphs)
+        fb.setupHorizontalMetrics({n: (600, 10 + k) for k, n in enumerate(names)})
+        fb.setupHorizontalHeader()
+        fb.setupNameTable({"familyName": "Gen & <Fam>", "styleName": "R"})
+        fb.setupOS2()
+        fb.setupPost(keepGlyphNames=True)
+        for tag in ("fpgm", "prep"):
+            t = newTable(tag)
+            t.program = Program()
+            t.program.fromBytecode(gen_program(r))
+            fb.font[tag] = t
+        fb.font["head"].created = fb.font["head"].modified = 3_600_000_000
+        fb.font.recalcTimestamp = False
+        b = io.BytesIO()
+        fb.font.save(b)
+        _GEN[i] = b.getvalue()
+    return _GEN[i]
+
+
+def _raw(rel):
+    if rel.startswith("gen:"):
+        return gen_font(int(rel[4:]))
+    return corpus.raw(rel)
 
 
 def prepare(ctx):
@@ -57,11 +151,13 @@ def generate(ctx, batch, idx):
     r = ctx.rng(batch, idx)
     fonts = _fonts()
     rel = fonts[idx % len(fonts)] if r.random() < 0.7 else r.choice(fonts)
-    size = os.path.getsize(corpus.path(rel))
+    if r.random() < 0.12:
+        rel = "gen:%d" % r.randrange(N_GENERATED)
+    size = len(_raw(rel))
     opts = {}
     if r.random() < 0.25:
         opts["splitTables"] = True
-    if r.random() < 0.15:
+    if r.random() < (0.5 if rel.startswith("gen:") else 0.15):
         opts["splitGlyphs"] = True
     if r.random() < 0.3:
         opts["disassembleInstructions"] = False
@@ -180,7 +276,9 @@ def _execute(ctx, h, scratch):
     events, probes = [], {}
     res = {"events": events, "probes": probes, "faults": {}, "states": [], "known": [], "nontrivial": False}
     rel = h["font"]
-    src = corpus.raw(rel)
+    src = _raw(rel)
+    if rel.startswith("gen:"):
+        probes["input.generated"] = 1
 
     def fail(cls, detail, **sig):
         if not res.get("violation"):
